@@ -5,9 +5,10 @@ M    : MC_PyramidAssembly - the per-axis octant assembly (state machine + NumPy
        {1,2,4,8,16}^2, factor 1|2: outcome classes Correct / Error / SilentWrong
        reported; Correct => level = global downscale (provenance and value
        level); closed form = voxel model; the pairs the code was written for
-       are all Correct; NoSilentWrong on the WHOLE pair space must FAIL
-       (non-vacuity: length-1 broadcast).  MC_PyramidAssembly2D: the 2-D
-       outcome is the product of the 1-D outcomes.
+       are all Correct; with the switch AssignRule = "strict" (the code's
+       fill() helper) NoSilentWrong HOLDS on the whole pair space, with
+       "numpy" (length-1 broadcast) it must FAIL.  MC_PyramidAssembly2D: the
+       2-D outcome is the product of the 1-D outcomes.
 S->C : every per-axis class exported by Gen_PyramidAssembly (o, n, f, outcome,
        representative sizes) is combined into 3-D infos and run through the REAL
        compute_dyadic_scales (three methods, 1-3 channels, raw /
@@ -47,13 +48,21 @@ def run_mc(ctx):
                                          "SilentWrong": ns,
                                          "SilentWrong_without_broadcast": ns_nobc,
                                          "SilentWrong_outside_half1_new_ge4": ns_other}
+    # deviation switch AssignRule: with "strict" (the code's fill()) the main
+    # run above proves NoSilentWrong on the WHOLE pair space; with "numpy"
+    # (length-1 broadcast) it must FAIL (non-vacuity)
+    ctx.notes["switches"] = {"AssignRule": "strict"}
     bad = tlc.model_check("MC_PyramidAssembly", "MC_PyramidAssembly_nosw", workers=8)
-    if bad["ok"]:
-        raise tlc.MachineryError("NoSilentWrong holds on the whole pair space (vacuous model)")
-    ctx.notes["NoSilentWrong_on_all_pairs_violated"] = bad["invariant_violated"]
+    if bad["ok"] or "NoSilentWrong" not in bad["invariant_violated"]:
+        raise tlc.MachineryError("AssignRule=numpy does not violate NoSilentWrong (vacuous model)")
+    ctx.notes["AssignRule_numpy_violates"] = bad["invariant_violated"]
     ctx.mc("MC_PyramidAssembly", "MC_PyramidAssembly_intended", workers=16)
     ctx.mc("MC_PyramidAssembly2D", ctx.pick("MC_PyramidAssembly2D_quick", "MC_PyramidAssembly2D"),
            workers=16)
+    if not ctx.quick:
+        # the other invariants and the factorisation also hold for plain NumPy assignment
+        ctx.mc("MC_PyramidAssembly", "MC_PyramidAssembly_numpy", workers=16)
+        ctx.mc("MC_PyramidAssembly2D", "MC_PyramidAssembly2D_numpy", workers=16)
 
 
 # ------------------------------------------------------------ S->C inputs ---
